@@ -61,6 +61,8 @@ def spec(cls, i):
         return {"polarization": pol, "diameter": 1.1 * s}, ("polarization", "diameter")
     if cls == "Tetrahedron":
         return {"polarization": pol, "vertices": TV * s}, ("polarization", "vertices")
+    if cls == "TetrahedronLeft":   # the same bodies with a left-handed vertex order (reordered inside the field function)
+        return {"polarization": pol, "vertices": (TV * s)[[0, 2, 1, 3]]}, ("polarization", "vertices")
     if cls == "Triangle":
         return {"polarization": pol, "vertices": TV[:3] * s}, ("polarization", "vertices")
     if cls == "TriangularMesh":
@@ -80,7 +82,7 @@ def ctor(cls):
     import magpylib as magpy
 
     return {"Cuboid": magpy.magnet.Cuboid, "Cylinder": magpy.magnet.Cylinder, "CylinderSegment": magpy.magnet.CylinderSegment,
-            "Sphere": magpy.magnet.Sphere, "Tetrahedron": magpy.magnet.Tetrahedron, "Triangle": magpy.misc.Triangle,
+            "Sphere": magpy.magnet.Sphere, "Tetrahedron": magpy.magnet.Tetrahedron, "TetrahedronLeft": magpy.magnet.Tetrahedron, "Triangle": magpy.misc.Triangle,
             "TriangularMesh": magpy.magnet.TriangularMesh, "Circle": magpy.current.Circle, "Polyline": magpy.current.Polyline,
             "Polyline_seg": magpy.current.Polyline, "Dipole": magpy.misc.Dipole,
             "CylinderSegmentMixed": magpy.magnet.CylinderSegment, "TriangularMeshRagged": magpy.magnet.TriangularMesh,
@@ -97,7 +99,7 @@ def observer(i):
     return np.array((1.7 + 0.3 * i, 0.9 - 0.4 * i, -0.6 + 0.5 * i))
 
 
-FUNC_CLASSES = ["Cuboid", "Cylinder", "CylinderSegment", "Sphere", "Tetrahedron", "Triangle", "TriangularMesh", "Circle",
+FUNC_CLASSES = ["Cuboid", "Cylinder", "CylinderSegment", "Sphere", "Tetrahedron", "TetrahedronLeft", "Triangle", "TriangularMesh", "Circle",
                 "Polyline", "Polyline_seg", "Dipole"]
 PARTS = ["exc", "geo", "pos", "ori", "obs"]
 
@@ -107,7 +109,7 @@ def run_func(c):
     from scipy.spatial.transform import Rotation as R
 
     cls, n, field, per = c["cls"], c["n"], c["field"], set(c["per"])
-    name = {"Polyline_seg": "Polyline", "CylinderSegmentMixed": "CylinderSegment", "TriangularMeshRagged": "TriangularMesh"}.get(cls, cls)
+    name = {"Polyline_seg": "Polyline", "CylinderSegmentMixed": "CylinderSegment", "TriangularMeshRagged": "TriangularMesh", "TetrahedronLeft": "Tetrahedron"}.get(cls, cls)
     idx = lambda part, i: i if part in per else 0  # noqa: E731
     exp = np.empty((n, 3))
     kw_lists = {"exc": [], "geo": [], "pos": [], "ori": [], "obs": []}
@@ -182,7 +184,7 @@ def run_intdtype(c):
     import magpylib as magpy
 
     cls, K, field = c["cls"], c["scale"], c["field"]
-    name = {"Polyline_seg": "Polyline"}.get(cls, cls)
+    name = {"Polyline_seg": "Polyline", "TetrahedronLeft": "Tetrahedron"}.get(cls, cls)
     n = 2
     fkw, obs = {}, []
     exc_l, geo_l, pos_l = [], [], []
